@@ -240,7 +240,7 @@ G4 = "start: 'a' 'b' $ ;\n"
 _BLOBS: dict = {}
 
 
-def _thread_setup(pair, uniq, fast=False):
+def _thread_setup(pair, uniq, fast=False, who=0):
     """-> (thunks, third) on a model compiled under a name never used before (so that nothing about it is warm); fast: a cold copy of
     the compiled model obtained through pickle (taken before the model ever parsed) instead of another compilation"""
     import pickle
@@ -262,8 +262,19 @@ def _thread_setup(pair, uniq, fast=False):
         # different names and grammars (COMPILE2) or one (name, grammar) key for both threads (COMPILE1: check-then-insert on the compile cache)
         names = [f'THC{uniq}a', f'THC{uniq}b'] if gname == 'COMPILE2' else [f'THC{uniq}s'] * 2
         gs = [G1, G2] if gname == 'COMPILE2' else [G1, G1]
+
+        def third_compile():
+            # afterwards BOTH compilations are asked for again (the compile cache and whatever else remembers a compilation now answer)
+            out = []
+            # (the compilation of the thread that was NOT preempted first: a later request repairs what an earlier one reveals)
+            for gi, ni, ti, si in ((gs[1], names[1], t1, s1), (gs[0], names[0], t0, s0))[::(1 if who == 0 else -1)]:
+                try:
+                    out.append(['ok', tatsu.compile(gi, name=ni).parse(ti, **settings(si))])
+                except Exception as e:  # noqa: BLE001
+                    out.append(['exc', type(e).__name__])
+            return out
         return ([lambda: tatsu.compile(gs[0], name=names[0]).parse(t0, **settings(s0)), lambda: tatsu.compile(gs[1], name=names[1]).parse(t1, **settings(s1))],
-                (lambda: tatsu.compile(gs[0], name=names[0]).parse(t0, **settings(s0))))
+                third_compile)
     else:
         g = {'G1': G1, 'G2': G2, 'G3': G3, 'G4': G4}[gname]
         if fast:
@@ -342,7 +353,7 @@ def make_threads(spec):
         _warm_history()
 
     def reference():
-        thunks, third = _thread_setup(pair, f'ref{who}_{lo}')
+        thunks, third = _thread_setup(pair, f'ref{who}_{lo}', who=who)
         out = []
         for th in thunks + [third]:
             try:
@@ -354,7 +365,7 @@ def make_threads(spec):
 
     def native(p, fast=True):
         serial[0] += 1
-        thunks, third = _thread_setup(pair, f'{who}_{lo}_{serial[0]}', fast=False)
+        thunks, third = _thread_setup(pair, f'{who}_{lo}_{serial[0]}', fast=False, who=who)
         try:
             results, counts = run_schedule(thunks, [(who, p)], granularity=gran, first=who, line_files=_line_files(pair, gran))
         except Deadlock as e:
